@@ -7,6 +7,8 @@
 #include <malloc.h>
 #include <pthread.h>
 #include <sys/mman.h>
+#include <stdarg.h>
+#include <stdio.h>
 #include <ucontext.h>
 #include <unistd.h>
 #include <unordered_map>
@@ -22,6 +24,12 @@ int __real_pthread_mutex_unlock(pthread_mutex_t *m);
 void *__real_memcpy(void *d, const void *s, size_t n);
 void *__real_memmove(void *d, const void *s, size_t n);
 void *__real_memset(void *d, int c, size_t n);
+int __real_vsnprintf(char *d, size_t n, const char *fmt, va_list ap);
+int __real_vsprintf(char *d, const char *fmt, va_list ap);
+char *__real_strcpy(char *d, const char *s);
+char *__real_strncpy(char *d, const char *s, size_t n);
+char *__real_strcat(char *d, const char *s);
+int __real_fputs(const char *s, FILE *f);
 // boundaries of the instrumented text (liborc + generated wrappers), see textmark_*.c
 void orcsim_text_begin(void);
 void orcsim_text_end(void);
@@ -729,6 +737,59 @@ void *__wrap_memset(void *d, int c, size_t n) {
   uintptr_t pc = PC;
   if (g_on && g_cur >= 0 && n && from_instrumented(pc)) mem_access((uintptr_t)d, n, true, pc);
   return __real_memset(d, c, n);
+}
+
+// ---- libc string/format functions that write to (or read from) a caller's buffer: what they touch
+// counts as an access of the instrumented caller, like the mem intrinsics above
+int __wrap_vsnprintf(char *d, size_t n, const char *fmt, va_list ap) {
+  uintptr_t pc = PC;
+  int r = __real_vsnprintf(d, n, fmt, ap);
+  if (g_on && g_cur >= 0 && n && d && r >= 0 && from_instrumented(pc)) mem_access((uintptr_t)d, std::min<size_t>((size_t)r + 1, n), true, pc);
+  return r;
+}
+int __wrap_snprintf(char *d, size_t n, const char *fmt, ...) {
+  uintptr_t pc = PC;
+  va_list ap;
+  va_start(ap, fmt);
+  int r = __real_vsnprintf(d, n, fmt, ap);
+  va_end(ap);
+  if (g_on && g_cur >= 0 && n && d && r >= 0 && from_instrumented(pc)) mem_access((uintptr_t)d, std::min<size_t>((size_t)r + 1, n), true, pc);
+  return r;
+}
+int __wrap_vsprintf(char *d, const char *fmt, va_list ap) {
+  uintptr_t pc = PC;
+  int r = __real_vsprintf(d, fmt, ap);
+  if (g_on && g_cur >= 0 && d && r >= 0 && from_instrumented(pc)) mem_access((uintptr_t)d, (size_t)r + 1, true, pc);
+  return r;
+}
+int __wrap_sprintf(char *d, const char *fmt, ...) {
+  uintptr_t pc = PC;
+  va_list ap;
+  va_start(ap, fmt);
+  int r = __real_vsprintf(d, fmt, ap);
+  va_end(ap);
+  if (g_on && g_cur >= 0 && d && r >= 0 && from_instrumented(pc)) mem_access((uintptr_t)d, (size_t)r + 1, true, pc);
+  return r;
+}
+char *__wrap_strcpy(char *d, const char *s) {
+  uintptr_t pc = PC;
+  if (g_on && g_cur >= 0 && from_instrumented(pc)) { size_t n = strlen(s) + 1; mem_access((uintptr_t)s, n, false, pc); mem_access((uintptr_t)d, n, true, pc); }
+  return __real_strcpy(d, s);
+}
+char *__wrap_strncpy(char *d, const char *s, size_t n) {
+  uintptr_t pc = PC;
+  if (g_on && g_cur >= 0 && n && from_instrumented(pc)) { mem_access((uintptr_t)s, std::min(strlen(s) + 1, n), false, pc); mem_access((uintptr_t)d, n, true, pc); }
+  return __real_strncpy(d, s, n);
+}
+char *__wrap_strcat(char *d, const char *s) {
+  uintptr_t pc = PC;
+  if (g_on && g_cur >= 0 && from_instrumented(pc)) { size_t dl = strlen(d), n = strlen(s) + 1; mem_access((uintptr_t)s, n, false, pc); mem_access((uintptr_t)d + dl, n, true, pc); }
+  return __real_strcat(d, s);
+}
+int __wrap_fputs(const char *s, FILE *f) {
+  uintptr_t pc = PC;
+  if (g_on && g_cur >= 0 && s && from_instrumented(pc)) mem_access((uintptr_t)s, strlen(s) + 1, false, pc);
+  return __real_fputs(s, f);
 }
 
 }  // extern "C"
